@@ -149,7 +149,7 @@ PROPS = {
                 "implementation-only oracles over all 45 non-BC formats: lossless round trips at the native layout where every stored channel holds the input (unstored channels decode to defaults), quantisation error within half a step for UNORM/SNORM fields on random f32 input incl. values outside [0,1], "
                 "and identical encoded bytes for the same pixel values carried as U8 / U16 (x257) / F32 (x/255), as GRAYSCALE / RGB / RGBA, with different row pitches and image shapes; distinct = distinct case lines",
         "trusted_base": BASE_TRUST + ["model/Float.v (executable IEEE-754 model, validated against the hardware by check C04)"],
-        "assumptions": ["dithering is excluded by the property and not modelled", "f32 inputs into 8/16-bit UNORM fields are proved for every f32 in [0, 2^40); into narrower / SNORM / float fields they are compared with the model on boundary and random values only"],
+        "assumptions": ["dithering is excluded by the property and not modelled", "f32 inputs into every UNORM field (2, 4, 5, 6, 8, 10, 16 bits) are proved for every f32 in [0, 2^40); into SNORM, XR, float and YUV fields, and for negative / huge / non-finite inputs, they are compared with the model on boundary and random values only"],
     },
     "C01": {
         "kernel_sample": 10,
